@@ -70,6 +70,9 @@ Section E4.
             match nth_error (progs c) (th_pc th) with
             | Some OYield => Nat.eqb (th_k th) 0
             | Some (OUsleep d) => Nat.eqb (th_k th) 0 && expired (s_now s) (timeout_of (s_now s) d)
+            | Some OWaitAll | Some OFini =>       (* wait_all's first loop iteration is a thread_yield() *)
+                Nat.eqb (th_k th) 0 && wait_cond s v && Nat.eqb c v &&
+                (is_nil (v_sleepq vc) || expired (s_now s) (timeout_of (s_now s) 1000))
             | _ => false
             end
         end
@@ -130,24 +133,27 @@ Section E4.
           end
         else first_victim s v r
     end.
+  (* the pvcpu list: a finalised vCPU has left it (go_offline) *)
   Definition victims (s : state) (v : nat) : list nat :=
-    map (fun i => Nat.modulo (v + 1 + i) (s_nv s)) (seq 0 (pred (s_nv s))).
+    filter (fun u => negb (offline progs s u)) (map (fun i => Nat.modulo (v + 1 + i) (s_nv s)) (seq 0 (pred (s_nv s)))).
   Definition cscan_labels (s : state) (v : nat) : list label :=
     if idler_running s v && v_active (getvc s v) then first_victim s v (victims s v) else [].
 
   Definition alone (s : state) (v : nat) : bool :=
     match v_runq (getvc s v) with [_] => true | _ => false end.
 
+  (* a command for a vCPU that does not exist (any more) does nothing *)
+  Definition on (s : state) (v : nat) : bool := Nat.ltb v (s_nv s) && negb (offline progs s v).
   Definition cmd_labels (s : state) (c : cmd) : list label :=
     match c with
-    | CStep v => if Nat.ltb v (s_nv s) then macro_labels MACRO_FUEL s v else []
-    | CBlock v => if Nat.ltb v (s_nv s) then
+    | CStep v => if on s v then macro_labels MACRO_FUEL s v else []
+    | CBlock v => if on s v then
                     if yields_next s v then [LStep v] else macro_labels MACRO_FUEL s v
                   else []
-    | CResume v => if Nat.ltb v (s_nv s) then cresume_labels s v else []
-    | CScan v => if Nat.ltb v (s_nv s) then cscan_labels s v else []
+    | CResume v => if on s v then cresume_labels s v else []
+    | CScan v => if on s v then cscan_labels s v else []
     | CAuto v =>
-        if Nat.ltb v (s_nv s) then
+        if on s v then
           let l1 := cresume_labels s v in
           let s1 := run progs s l1 in
           let l2 := if idler_running s1 v && alone s1 v then cscan_labels s1 v else [] in
